@@ -77,3 +77,11 @@ Example C11_total_ev_example : forall g, In g (conds N f_witness) -> (fun _ : N 
 Proof. intros; discriminate. Qed.
 Example C11_binop_example : is_binop OMul = true /\ (0 <= 3)%Z.
 Proof. split; [reflexivity|discriminate]. Qed.
+
+(* (iii) macro expansion, #/##-free closed fragment (PP/Macro.v): every expansion terminates, with an explicit
+   linear fuel bound: size of the sequence + (macros not yet in the hide set) * (1 + largest body). *)
+From CV Require Import PP.Macro PP.MacroProofs.
+Theorem C11_expand_terminates tb hs env t fuel :
+  (enough tb hs (tsize t) < fuel)%nat -> exists o, exp tb fuel hs env t = Some o.
+Proof. exact (expand_terminates tb hs env t fuel). Qed.
+Print Assumptions C11_expand_terminates.
